@@ -298,9 +298,17 @@ theorem same_canDisposePurge (dn : List Nat) (s : Slot) : SameCore s (s.canDispo
   split
   · exact SameCore.refl s
   · simp only
+    have h1 := same_purgeAlloc s dn false
+    have h2 := h1.trans (same_purgeAlloc _ dn true)
+    have h3 := h2.trans (same_purgeDang _ dn false)
+    have h4 := h3.trans (same_purgeDang _ dn true)
     split
-    · exact (same_purgeAlloc _ _ _).trans (same_purgeAlloc _ _ _)
-    · exact same_purgeAlloc _ _ _
+    · exact h1
+    · split
+      · exact h2
+      · split
+        · exact h3
+        · exact h4
 
 theorem same_fdHead (dn : List Nat) (s : Slot) : SameCore s (s.fdHead dn) := by
   unfold Slot.fdHead
@@ -1086,7 +1094,38 @@ theorem Pool.Inv.step {p p' : Pool} (h : p.Inv) (hb : p.cfg.batch ≤ p.cfg.cap)
   | faAssigned i six res toHead =>
     simp only [Pool.step] at hs
     cases hen : (p.slot i).eni with
-    | none => rw [hen] at hs; cases hs
+    | none =>
+      -- the interface was deleted while the call was in flight: only a failure without addresses is accepted,
+      -- the slot keeps its (empty) address list, one plan is reset
+      rw [hen] at hs
+      simp only at hs
+      obtain ⟨hc, rfl⟩ := ite_some_eq hs
+      simp only [Bool.and_eq_true, List.isEmpty_iff] at hc
+      obtain ⟨hips, herr'⟩ := hc
+      obtain ⟨code, herr⟩ := Option.isSome_iff_exists.mp herr'
+      have hsl : SlotOK p.cfg (p.slot i) := h.slotOK i
+      have hemp := hsl.empty hen
+      refine ⟨?_, rfl⟩
+      apply h.updEmpty i _ hemp
+      have hass : SameCore (p.slot i) ((p.slot i).assigned six res) := by
+        unfold Slot.assigned
+        rw [herr]
+        simp only
+        refine SameCore.trans ?_ (same_onError _ code)
+        rw [hips]
+        exact ⟨by simp [newIPs, putIPs], rfl, rfl, rfl⟩
+      have hok0 : SlotOK p.cfg ((p.slot i).assigned six res) := hsl.same hass
+      have hok1 : SlotOK p.cfg (if six then { (p.slot i).assigned six res with plan6 := 0 } else { (p.slot i).assigned six res with plan4 := 0 }) := by
+        cases six with
+        | true =>
+          simp only [if_true]
+          exact ⟨hok0.keys, hok0.del, hok0.empty, hok0.cap4, by have := hok0.cap6; simp only at this ⊢; omega⟩
+        | false =>
+          simp only [Bool.false_eq_true, if_false]
+          exact ⟨hok0.keys, hok0.del, hok0.empty, by have := hok0.cap4; simp only at this ⊢; omega, hok0.cap6⟩
+      split
+      · exact hok1.same (same_faHeadPurge _ _)
+      · exact hok1
     | some e =>
       rw [hen] at hs
       simp only at hs
@@ -1222,7 +1261,7 @@ theorem Pool.Inv.step {p p' : Pool} (h : p.Inv) (hb : p.cfg.batch ≤ p.cfg.cap)
             have := hc.2
             unfold Slot.canDispose at this
             simp only [hen, Option.isNone_some, Bool.false_or, Bool.and_eq_true, Bool.not_eq_true', List.any_eq_false] at this
-            have := this.1.1 a ha
+            have := this.1.1.1.1 a ha
             simpa [IP.inUse] using this
           apply h.upd i
           · rw [hsdef']
